@@ -143,6 +143,21 @@ class Expr:
     def is_not_nan(self):
         return Expr(lambda fr: Col(lambda i: True, self.ev(fr).null, "bool"), self.name)
 
+    def is_duplicated(self):
+        """true on every row whose value occurs on another selected row as well (nulls compare equal to nulls)"""
+
+        def ev(fr):
+            a = self.ev(fr)
+
+            def at(i):
+                j = _i("j")
+                same = z3.Or(z3.And(a.null(i), a.null(j)), z3.And(z3.Not(a.null(i)), z3.Not(a.null(j)), _zb(py_eq(a.at(i), a.at(j)))))
+                return SBool(z3.Exists([j], z3.And(fr.sel(j), j != i, same)))
+
+            return Col(at, lambda i: z3.BoolVal(False), "bool")
+
+        return Expr(ev, self.name)
+
     def fill_null(self, v):
         def ev(fr):
             a = self.ev(fr)
@@ -396,6 +411,7 @@ class FrameP:
                 for n in e.multi(self):
                     sub = e.per_column(n) if hasattr(e, "per_column") else Expr(lambda fr, n=n: fr.cols[n], n)
                     out[n] = sub.ev(self)
+                    agg = agg or getattr(sub, "aggregate", False)
                 continue
             ee = col(e) if isinstance(e, str) else e
             out[ee.name] = ee.ev(self)
@@ -406,7 +422,7 @@ class FrameP:
                 continue
             out[k] = e.ev(self)
             agg = agg or getattr(e, "aggregate", False)
-        return self.derive(cols=out, agg=agg)
+        return self.derive(cols=out, agg=agg or self.agg)  # (a projection of a 1-row aggregate frame is a 1-row frame)
 
     def with_columns(self, *exprs, **named):
         out = dict(self.cols)
@@ -452,6 +468,17 @@ class FrameP:
         cur().assume(z3.ForAll([i], z3.Implies(self.sel(i), z3.Exists([j], z3.And(self.sel(j), rep(j), same(i, j))))))
         cur().assume(z3.ForAll([i, j], z3.Implies(z3.And(self.sel(i), self.sel(j), rep(i), rep(j), i != j), z3.Not(same(i, j)))))
         return self.derive(sel=lambda k: z3.And(self._sel(k), rep(k)))
+
+    def is_duplicated(self):
+        """DataFrame.is_duplicated(): a boolean Series, true on every row that agrees with another row on ALL columns of the frame"""
+        cols = list(self.cols.values())
+
+        def at(i):
+            j = _i("j")
+            same = [z3.Or(z3.And(c.null(i), c.null(j)), z3.And(z3.Not(c.null(i)), z3.Not(c.null(j)), _zb(py_eq(c.at(i), c.at(j))))) for c in cols]
+            return SBool(z3.Exists([j], z3.And(self.sel(j), j != i, *same)))
+
+        return SeriesP(self, Col(at, lambda i: z3.BoolVal(False), "bool"), "is_duplicated")
 
     def collect_schema(self):
         return _SchemaP(self)
@@ -512,6 +539,15 @@ class SeriesP:
 
     def __init__(self, frame, col_, name):
         self.frame, self.col, self.name = frame, col_, name
+
+    def any(self, ignore_nulls=True):
+        fr, c = self.frame, self.col
+        return SBool(_exists(fr, lambda i: z3.And(z3.Not(c.null(i)), _zb(c.at(i)))))
+
+    def all(self, ignore_nulls=True):
+        fr, c = self.frame, self.col
+        i = _i()
+        return SBool(z3.ForAll([i], z3.Implies(z3.And(fr.sel(i), z3.Not(c.null(i))), _zb(c.at(i)))))
 
     def unique(self):
         fr, c = self.frame, self.col
@@ -588,7 +624,7 @@ def _multi(e):
 
         return f
 
-    for nm in ("map_elements", "is_null", "not_", "eq", "ne", "gt", "ge", "lt", "le", "is_in"):
+    for nm in ("map_elements", "is_null", "not_", "eq", "ne", "gt", "ge", "lt", "le", "is_in", "all", "any", "is_duplicated", "is_not_null"):
         setattr(m, nm, wrap(nm))
     return m
 
